@@ -562,7 +562,9 @@ macro_rules! frames_for {
         macro_rules! w {
             ($n:literal) => {
                 if $sel($n) {
-                    check_frame::<$S, $n>($rep, $seed);
+                    if let Err(m) = vmon::catch(std::panic::AssertUnwindSafe(|| check_frame::<$S, $n>($rep, $seed))) {
+                        $rep.violation("frame|panic", format!("[{}; {}]: panicked: {}", <$S as AnyS>::NAME, $n, m), format!("kind=frame;fmt={};n={};seed={}", <$S as AnyS>::NAME, $n, $seed));
+                    }
                 }
             };
         }
